@@ -847,11 +847,13 @@ func runC09(a Args) tr.Summary {
 		c09Run(t, id, c)
 	}
 	for _, kind := range []string{"tcp", "mock"} {
-		for _, mode := range []string{"rcall", "rcall-idle", "rcall-idlestop", "rcall-race", "rcall-stale", "rcall-wake", "rcall-script"} {
+		for _, mode := range []string{"rcall", "rcall-idle", "rcall-idlestop", "rcall-race", "rcall-stale", "rcall-wake", "rcall-script", "rcall-first"} {
 			id++
 			c := c09Case{kind, mode, 8, calls * 3, a.Seed*1000 + int64(id)}
 			if mode == "rcall-idle" {
 				c.Calls = calls // every lost call costs its time-out
+			} else if mode == "rcall-first" {
+				c.Callers, c.Calls = 6, calls*4
 			} else if mode == "rcall-script" {
 				c.Callers, c.Calls = 3, calls*2
 			} else if mode != "rcall" {
